@@ -145,7 +145,44 @@ def run(P, C, tier):
             ok = has_guard(st, bi, r"HashSet::remove$", True, LK) and any(st.dominates(ab, bi) for ab in adds)
             C.ob("R1", "grants-bounded:Unlock", ok, st.loc(bi), "one grant attempt, only after a held room was released and the counter incremented")
         else:
-            C.ob("R1", "grants-bounded:?", False, st.loc(bi), "acquire_lock called outside a message arm")
+            # one loop after the match: `let attempts = match msg { RequestLock.. => avalaible, Unlock.. => if released { 1 } else { 0 } };
+            # for _ in 0..attempts { acquire_lock(..) }` -- every value the bound can take is one of the two budgets above
+            okb = False
+            det = "acquire_lock called outside a message arm"
+            for s, vals, term in st.guards(bi, expand_vars=False):
+                term = st.switch_term(s, expand_vars=False)
+                nx = mir.has_call(term, r"::next$")
+                if nx is None:
+                    continue
+                rng = mir.has_call(term, r"::into_iter$")
+                itv = mir.strip_refs(nx[2][0]) if nx[2] else ("unknown",)
+                if rng is None and itv[0] == "var":
+                    for d_ in st.var_defs(itv):     # `for` keeps its iterator in a variable: one step back, the bound stays a variable
+                        rng = rng or mir.has_call(d_, r"::into_iter$")
+                src = mir.strip_refs(rng[2][0]) if rng else None
+                if src is None or src[0] != "aggr" or not src[2].endswith("Range") or len(src[4]) < 2:
+                    continue
+                end = mir.strip_refs(src[4][1])
+                if end[0] != "var" or len(end) < 3:
+                    continue
+                vals_ok = []
+                for (dbi, dsi, drv, dlhs) in st.defs().get(end[2], ()):
+                    if dbi not in st.live_blocks() or len(dlhs) != 1:
+                        continue
+                    dt = mir.strip_refs(st.def_term(dbi, dsi, drv, 0))
+                    alts = dt[1] if dt[0] == "phi" else [dt]
+                    for a_ in alts:
+                        a_ = mir.strip_refs(a_)
+                        if a_[0] == "const" and a_[1] == 0:
+                            vals_ok.append(True)
+                        elif a_[0] == "const" and a_[1] == 1:
+                            vals_ok.append(has_guard(st, dbi, r"HashSet::remove$", True, LK) and any(st.dominates(ab, dbi) for ab in adds))
+                        else:
+                            vals_ok.append(any(field_path(y) == AV_ST for z in mir.subterms(a_) if z[0] in ("var", "param", "upvar", "field", "deref")
+                                               for y in ([z] + (st.var_defs(z) if z[0] == "var" else []))))
+                okb = bool(vals_ok) and all(vals_ok)
+                det = "one loop `for _ in 0..n` after the match; every value of n is the free-slot count, 0, or 1 after a held room was released: %s" % vals_ok
+            C.ob("R1", "grants-bounded:?", okb, st.loc(bi), det)
     # ---- R2
     try:
         tasks = [x for x in P.bodies.values() if x.id.startswith("synchronisation::peer_inbound_service::LocalPeerService::process_acquired_room::") and x.calls_to(r"LocalPeerService::synchronise_room$")]
